@@ -289,8 +289,12 @@ class EventMixin (object):
 
     # Create a copy so that it can be modified freely during event
     # processing.  It might make sense to change this.
-    handlers = self._eventMixin_handlers.get(eventType, [])
-    for (priority, handler, once, eid) in handlers:
+    handlers = list(self._eventMixin_handlers.get(eventType, []))
+    for entry in handlers:
+      (priority, handler, once, eid) = entry
+      if entry not in self._eventMixin_handlers.get(eventType, ()):
+        # Removed (by an earlier handler or a nested raise) in the meantime
+        continue
       if classCall:
         rv = event._invoke(handler, *args, **kw)
       else:
